@@ -145,6 +145,25 @@ def _baseline_and_mutants(a, explore, new_check):
             return idx, tuple(best[i - 1] + 0.5 for i in idx)
         patch(to, "select_params", select_params)
 
+    def m_list_target_order():   # seeded C11b: per-parameter targets taken in sorted index order, indices walked in set order
+        orig = cn.impose_at
+
+        def impose_at(index, target=0.0):
+            idx = list(index)
+            if hasattr(target, "__len__") and len(target) == len(idx):
+                target = [target[idx.index(j)] for j in sorted(idx)]
+            return orig(index, target)
+        patch(cn, "impose_at", impose_at)
+
+    def m_best_value_order():    # target=None: the best solution's values taken in sorted index order, indices in set order
+        orig = to.select_params
+
+        def select_params(params, index):
+            idx, vals = orig(params, index)
+            pairs = dict(zip(idx, vals))
+            return idx, tuple(pairs[j] for j in sorted(idx))
+        patch(to, "select_params", select_params)
+
     def m_collapse_despite_stop():  # a collapse is applied although a stop condition holds as well
         def __get_collapses(self, disp=False):
             return self.Collapsed(disp=disp, info=True)
@@ -182,6 +201,8 @@ def _baseline_and_mutants(a, explore, new_check):
         ("pin applied to the wrong index", m_wrong_index),
         ("tied pair applied to the wrong partner", m_tie_wrong_partner),
         ("target=None pins at a wrong value", m_pin_at_wrong_value),
+        ("per-parameter targets and indices walked in different orders (C11b; shows for indices >= 8 only)", m_list_target_order),
+        ("target=None: best values and indices walked in different orders (shows for indices >= 8 only)", m_best_value_order),
         ("collapse applied although a stop condition holds", m_collapse_despite_stop),
         ("collapsed constraint applied to the first evaluation only", m_constraints_first_call_only),
     ]
@@ -215,7 +236,10 @@ def run(a, explore, new_check):
     base, nbase = _classes(a, explore, new_check)
     print("SELFTEST baseline (unchanged tree): %d violation classes: %s" % (len(base), sorted(base)))
     missed = 0
+    only = os.environ.get("C11_SELFTEST_ONLY")          # development aid: run only the mutants whose name contains this
     for name, mut in mutants:
+        if only and only not in name:
+            continue
         mut()
         try:
             keys, n = _classes(a, explore, new_check)
@@ -230,14 +254,14 @@ def run(a, explore, new_check):
     # ---- corrupt what TLC expects: one expected report of a detector case, one expected mask of a loop stop
     orig_replay = D.replay_state
 
-    def corrupt_detector(mods, header, st, solver_every=7):
+    def corrupt_detector(mods, header, st, solver_every=7, emb=None):
         st = dict(st)
         if st["d"] and not corrupt_detector.done:
             d = [list(x) for x in st["d"]]
             d[0] = [] if d[0] else ([0] if header["mode"] == "param" else [[0, 0]] if header["mode"] == "weight" else [[0, [0, 1]]])
             st["d"] = d
             corrupt_detector.done = True
-        return orig_replay(mods, header, st, solver_every)
+        return orig_replay(mods, header, st, solver_every, emb)
     corrupt_detector.done = False
     D.replay_state = corrupt_detector
     try:
@@ -250,12 +274,12 @@ def run(a, explore, new_check):
 
     orig_stop = L.replay_stop
 
-    def corrupt_stop(mt, case, kind, points):
+    def corrupt_stop(mt, case, kind, points, emb=None):
         if case["ra"] and not corrupt_stop.done:
             case = dict(case)
             case["mk"] = {"at": {"none": False, "idx": []}, "as": case["mk"]["as"]}
             corrupt_stop.done = True
-        return orig_stop(mt, case, kind, points)
+        return orig_stop(mt, case, kind, points, emb)
     corrupt_stop.done = False
     L.replay_stop = corrupt_stop
     try:
